@@ -525,4 +525,9 @@ def run(model, rep):
     rule_j(model, rep)
     rule_k(model, rep)
     # check_password() answers through handler.verify(): verify() must recompute with what hash() was given (user, realm, encoding)
-    _c01.rule_d(model, _Renamed(rep, {"C01.d": "C16.l-hash-verify-wiring"}, "C16.x-"))
+    from .shared import handler_site_filter
+    from pv.handlers import HandlerTable
+    only, used = handler_site_filter(model, HandlerTable(model), ("passlib.apache",), extra_names=("htdigest",))
+    rep.extra["apache_handlers"] = used
+    _c01.rule_d(model, _Renamed(rep, {"C01.d": "C16.l-hash-verify-wiring"}, "C16.x-", only=only))
+    rep.minimum("C16.l-hash-verify-wiring", 10)
